@@ -126,6 +126,8 @@ def run(chk):
         "model Time/Model.v is a hand port of vm.rs Op::AddToDateTime/SubFromDateTime/DiffDateTime and CallCallable TzConversion",
         "jiff (calendar, tz database, Span/Zoned arithmetic, strptime/strftime) is not modelled; its range limits are constants of the model",
         "instants are built with from_unixtime_s and observed through Zoned::timestamp().as_nanosecond() (harness eval)",
+        "the local time zone of the sessions is set explicitly (TZ: UTC, and Pacific/Chatham etc. for the zone-independence pass); "
+        "there is no injectable clock, so now()/today() are not used by this check",
     ]
     quick = chk.tier == "quick"
     rng = chk.rng
@@ -182,6 +184,13 @@ def run(chk):
     o_unit = outs[len(lines):len(lines) + len(ulines)]
     o_zone = outs[len(lines) + len(ulines):len(lines) + len(ulines) + len(zlines)]
     o_nf = outs[len(lines) + len(ulines) + len(zlines):]
+
+    # the same exact cases in sessions whose LOCAL time zone is not UTC (from_unixtime_s gives a date-time in the local
+    # zone): instants, durations and error kinds must not depend on it
+    local_zone_runs = {}
+    zone_pass_lines = 450 if quick else len(lines)          # quick: the corpus and the first ~150 cases
+    for z in (["Pacific/Chatham"] if quick else ["Pacific/Chatham", "America/St_Johns", "Asia/Kathmandu"]):
+        local_zone_runs[z] = common.run_harness(binary, "eval", lines[:zone_pass_lines], extra_args=("--tz", z))
 
     fails = []          # property violations on the implementation (with input)
 
@@ -246,6 +255,16 @@ def run(chk):
             if s == mp[0] + ";" + mp[1] + ";":
                 continue
             mismatches.append({"source": lines[3 * i], "implementation": ";".join(o_exact[3 * i:3 * i + 3]), "model": ms})
+
+    def zone_free(o):
+        d = d_of(o)
+        return ("D", d[0]) if d else o
+    for z, zo in local_zone_runs.items():
+        for i, (a, b) in enumerate(zip(o_exact, zo)):
+            if zone_free(a) != zone_free(b):
+                fail("local-zone", lines[i], "UTC session: %s ; %s session: %s" % (a, z, b),
+                     "the result depends on the local time zone of the session")
+                break
 
     # (B) every unit
     for i, (t, x, u) in enumerate(unit_cases):
@@ -315,7 +334,7 @@ def run(chk):
         "exact_model_cases": len(exact), "model_mismatches": len(mismatches),
         "cases_where_exact_rational_model_differs_by_1ns_from_f64_refinement": one_ns,
         "exact_case_outcomes": dict(outcome_hist),
-        "unit_cases": len(unit_cases), "zone_cases": len(zone_cases), "oracle_failures": len(fails),
+        "unit_cases": len(unit_cases), "zone_cases": len(zone_cases), "local_zone_passes": sorted(local_zone_runs), "oracle_failures": len(fails),
         "samples": [{"source": all_lines[i], "implementation": outs[i]} for i in (0, len(lines), len(lines) + len(ulines) + 1, len(all_lines) - 1)],
     })
     chk.assumptions += ["the duration operand is known exactly only for durations written in seconds; other units are covered by the oracle with tolerances",
